@@ -147,7 +147,7 @@ Definition expr_events (e : texpr) : list ev :=
 Definition mpart_events (p : mpart) : list ev :=
   match p with
   | MText pos _ => [EvLine pos]
-  | MVar pos epos _ => [EvLine epos; EvLine pos]
+  | MVar pos epos _ => [EvLine pos; EvLine epos]
   end.
 
 Definition mblock_events (b : mblock) : list ev :=
@@ -155,30 +155,23 @@ Definition mblock_events (b : mblock) : list ev :=
 
 Definition targ_events (a : targ) : list ev := [EvLine (fst (snd a))].
 
-(** [node.expressions()] visited before [visit(node)]. *)
-Definition node_expr_events (n : node) : list ev :=
-  match n with
-  | NText _ | NComment _ _ | NLiquid _ _ => []
-  | NExpr _ _ e => expr_events e
-  | NIf _ cpos c _ _ _ => expr_events (TPlain cpos c)
-  | NFor _ ipos s _ _ => expr_events (TPlain ipos s)
-  | NTranslate _ args _ _ => flat_map targ_events (targ_dict args)
-  end.
-
-(** [visit(node)]: own line number, comment / translatable-tag handling, then
-    for every child its expressions and [visit(child)]. *)
+(** [visit(node)] (after fix 0012): own line number, comment /
+    translatable-tag handling, then the node's expressions, then
+    [visit(child)] for every child — source order. *)
 Fixpoint visit (n : node) : list ev :=
   match n with
   | NText pos => [EvLine pos]
   | NComment pos text => [EvComment pos text]
-  | NExpr _ pos _ => [EvLine pos]
-  | NIf pos _ _ conseq alts default =>
-      EvLine pos :: visit_block conseq ++ visit_alts alts ++ visit_opt default
-  | NFor pos _ _ body default =>
-      EvLine pos :: visit_block body ++ visit_opt default
+  | NExpr _ pos e => EvLine pos :: expr_events e
+  | NIf pos cpos c conseq alts default =>
+      EvLine pos :: expr_events (TPlain cpos c)
+      ++ visit_block conseq ++ visit_alts alts ++ visit_opt default
+  | NFor pos ipos s body default =>
+      EvLine pos :: expr_events (TPlain ipos s) ++ visit_block body ++ visit_opt default
   | NTranslate pos args sing plural =>
       EvLine pos
       :: map (EvMsg pos) (opt_list (tr_messages args sing plural))
+      ++ flat_map targ_events (targ_dict args)
       ++ mblock_events sing
       ++ match plural with Some pb => mblock_events pb | None => [] end
   | NLiquid pos body => EvLine pos :: visit_block body
@@ -190,14 +183,14 @@ with visit_block (b : block) : list ev :=
 with visit_nodes (ns : nodes) : list ev :=
   match ns with
   | NNil => []
-  | NCons n r => node_expr_events n ++ visit n ++ visit_nodes r
+  | NCons n r => visit n ++ visit_nodes r
   end
 with visit_alts (a : altlist) : list ev :=
   match a with
   | ANil => []
   | ACons pos cpos c b rest =>
-      (* ConditionalBlockNode: its expression, itself, then its block *)
-      expr_events (TPlain cpos c) ++ EvLine pos :: visit_block b ++ visit_alts rest
+      (* ConditionalBlockNode: itself, its expression, then its block *)
+      EvLine pos :: expr_events (TPlain cpos c) ++ visit_block b ++ visit_alts rest
   end
 with visit_opt (o : optblock) : list ev :=
   match o with
@@ -344,9 +337,13 @@ Fixpoint render_node (n : node) {struct n} : rout :=
       | k => repeat_rout k (render_block body)
       end
   | NTranslate pos args sing plural =>
-      match tr_call pyint d args sing plural with
-      | Ok c => ([{| tc_call := c; tc_pos := pos; tc_lit := tr_literal args |}], Ok tt)
-      | e => ([], res_unit e)
+      match mb_parts sing, plural with
+      | [], None => r_ok      (* no message: the catalog is not consulted (fix 0010) *)
+      | _, _ =>
+          match tr_call pyint d args sing plural with
+          | Ok c => ([{| tc_call := c; tc_pos := pos; tc_lit := tr_literal args |}], Ok tt)
+          | e => ([], res_unit e)
+          end
       end
   | NLiquid _ body => render_block body
   end
